@@ -157,6 +157,20 @@ Proof.
   split; do 3 eexists; (split; [vm_compute; reflexivity|]); split; vm_compute; reflexivity.
 Qed.
 
+(* holders frozen before Copy() with getter-only, setter-only and getter+setter members over a
+   shared closure stash: the cloner gives each holder fresh accessor functions and a fresh stash
+   (so C17_clone_iso / C17_copy_isolated apply to them), the checker accepts that copy, and it
+   rejects a copy whose frozen holder kept the source's property table (its getter would be the
+   original's function object) *)
+Example C17_frozen_accessor_holders :
+  exists s, clone_roots h_frozen 8 [1] 100 = Ok s /\
+            check_iso h_frozen (out s) (memo s) = true /\
+            length (memo s) = 7%nat /\
+            check_iso h_frozen (keep_source_cell h_frozen s 2) (memo s) = false /\
+            check_iso h_frozen (keep_source_cell h_frozen s 6) (memo s) = false /\
+            check_iso h_frozen (keep_source_cell h_frozen s 7) (memo s) = false.
+Proof. eexists. split; [vm_compute; reflexivity|]. repeat split; vm_compute; reflexivity. Qed.
+
 (* non-vacuity: a cyclic heap with a closure, an accessor and a bound function is cloned,
    passes the checker, and a step on the original is a legal step *)
 Definition ex_heap : heap :=
